@@ -824,6 +824,57 @@ def bgzf_header_variants(rng):
     return out
 
 
+def bgzf_ops_cases(rng, n):
+    """Streams of valid members with one member damaged behind an intact header, and short Seek/Read
+    histories that ask for the damaged member more than once."""
+    out = []
+    for _ in range(n):
+        nm = rng.randrange(2, 5)
+        datas = [bytes(rng.choice(b'ACGT\n') for _ in range(rng.choice([1, 50, 300, 2000]))) for _ in range(nm)]
+        members = [join(bgzf_member_fields(i, d)) for i, d in enumerate(datas)]
+        k = rng.randrange(nm)
+        m = bytearray(members[k])
+        kind = rng.choice(['payload', 'payload', 'crc', 'isize', 'cut', 'cut-hdr', 'bsize', 'none'])
+        if kind == 'payload' and len(m) > 27:
+            p = rng.randrange(18, len(m) - 8)
+            m[p] ^= 1 << rng.randrange(8)
+        elif kind == 'crc':
+            m[len(m) - 8 + rng.randrange(4)] ^= 0xff
+        elif kind == 'isize':
+            m[len(m) - 4 + rng.randrange(4)] ^= 1 << rng.randrange(8)
+        elif kind == 'cut':
+            m = m[:rng.randrange(18, len(m))]
+        elif kind == 'cut-hdr':
+            m = m[:rng.randrange(1, 18)]
+        elif kind == 'bsize':
+            m[16] ^= 1 << rng.randrange(8)
+        tail = members[k + 1:] if kind not in ('cut', 'cut-hdr') or rng.random() < 0.5 else []
+        eof = [join(bgzf_member_fields(9, b''))] if rng.random() < 0.8 else []
+        stream = b''.join(members[:k]) + bytes(m) + b''.join(tail) + b''.join(eof)
+        bases = [0]
+        for mm in members:
+            bases.append(bases[-1] + len(mm))
+        bk = bases[k]
+        prev = bases[k - 1] if k > 0 else 0
+        plen = len(datas[k - 1]) if k > 0 else 0
+        hist = rng.choice([
+            [[0, bk, 0], [0, bk, 0]],
+            [[0, bk, 0], [0, bk, 0], [1, 10]],
+            [[0, bk, 0], [1, 10], [0, bk, 0]],
+            [[0, prev, 0], [1, plen + 20], [0, bk, 0]],
+            [[1, 100000], [0, bk, 0], [0, bk, 0]],
+            [[0, bk, 0], [0, prev, 0], [1, plen + 5], [0, bk, 0], [1, 5]],
+            [[0, bk, 3], [0, bk, 3]],
+            [[0, bk, 0], [0, bases[min(k + 1, nm)], 0], [0, bk, 0]],
+            [[0, bk + 1, 0], [0, bk + 1, 0]],
+            [[0, len(stream) + 5, 0], [0, len(stream) + 5, 0], [0, bk, 0]],
+        ])
+        if rng.random() < 0.3:
+            hist = hist + [rng.choice([[0, rng.choice(bases), 0], [1, rng.choice([1, 50, 5000])]]) for _ in range(rng.randrange(1, 4))]
+        out.append((stream, hist, 'dmg:%s' % kind))
+    return out
+
+
 # ------------------------------------------------------- crasher corpora
 
 def go_unquote(s):
